@@ -29,8 +29,9 @@ LEVEL_TEXT = ('static analysis: (D1+D2) skgenome.intersect.idx_ranges is abstrac
               "interpreted on 84 literal table pairs: every chromosome of the query table is paired with exactly the other table's rows on that "
               'chromosome, or with nothing (kept iff keep_empty); (D7) by_ranges (outer / inner / trim) and iter_slices on literal tables with '
               'chromosomes absent from either side and index labels that are not positions: one result per query range, in order, holding exactly'
-              ' the overlapping / contained rows (clipped to the query range in trim mode) (their labels for iter_slices). Does not decide the '
-              'row sets of arbitrary tables beyond predicate/side agreement (start column sorted is the premise).')
+              ' the overlapping / contained rows (clipped to the query range in trim mode) (their labels for iter_slices). A second literal '
+              "layout has rows nested inside a long one (ends not monotone, queries starting past the last row's end). Does not decide the row "
+              "sets of arbitrary tables beyond predicate/side agreement (start column sorted, each chromosome's rows contiguous, is the premise).")
 TECHNIQUE = "abstract interpretation with symbolic sorted columns (searchsorted as counting atoms, masks as predicate sets); index-kind lint; return-kind rule"
 
 IDX = "skgenome.intersect.idx_ranges"
